@@ -4,7 +4,9 @@ from __future__ import annotations
 import collections
 import hashlib
 
-from mc import core, joinspace as js
+from mc import core, joinspace as js, provenance
+
+NROUTES = len(provenance.TABLE_ROUTES)
 from mc.core import Agg, V
 from mc.models import obs, truthful
 
@@ -28,6 +30,7 @@ def run_unit(unit):
     agg = Agg()
     h = hashlib.sha256()
     last = None
+    vi = 0          # provenance round-robin: both tables are built through a different route for every case
     for lkeys, rkeys in js.cases(unit):
         agg.states += 1
         nt = nontrivial(lkeys, rkeys)
@@ -41,8 +44,10 @@ def run_unit(unit):
             for method in ("join", "full_join"):
                 case = js.describe_case(kind, nkeys, config, form, lkeys, rkeys, method, "many_to_many")
                 try:
-                    L, lon, lcols = js.build_side("L", lkeys, nkeys, config, form)
-                    R, ron, rcols = js.build_side("R", rkeys, nkeys, config, form)
+                    vi += 1
+                    L, lon, lcols = js.build_side("L", lkeys, nkeys, config, form, variant=vi % NROUTES)
+                    R, ron, rcols = js.build_side("R", rkeys, nkeys, config, form, variant=(vi // NROUTES) % NROUTES)
+                    case["routes"] = [provenance.TABLE_ROUTES[vi % NROUTES], provenance.TABLE_ROUTES[(vi // NROUTES) % NROUTES]]
                 except Exception as e:
                     agg.violation(V("join.build-inputs", "raises-" + type(e).__name__, case))
                     continue
